@@ -44,6 +44,25 @@ MUT_OPS = {
     'sort_mean_noaxis': ('mean', False),     # the same without an `axis` parameter (reduce falls back to row by row)
     'nan_median_noaxis': ('median', False),
 }
+# Plain NumPy reducers handed over as `operation` / `reduce_fnc` (name -> NumPy function, the pure per-row operation it
+# computes).  np.mean / sum / max / min / std / amax / amin called on a non-ndarray first look for a METHOD of the same
+# name on their argument (a SeriesColumn has PROPERTIES mean, sum, max, min, std, median: the per-sample statistics
+# over rows); np.median / ptp / var / prod convert their argument.  Either way the result must be the per-row value:
+# NaN as soon as the row holds a NaN for the plain reducers, NaN ignored for the nan-aware ones.
+PLAIN_OPS = {
+    'np_mean': ('mean', 'np_mean'), 'np_sum': ('sum', 'np_sum'), 'np_max': ('max', 'np_max'), 'np_min': ('min', 'np_min'),
+    'np_amax': ('amax', 'np_max'), 'np_amin': ('amin', 'np_min'), 'np_std': ('std', 'np_std'),
+    'np_median': ('median', 'npmedian'), 'np_ptp': ('ptp', 'np_ptp'), 'np_var': ('var', 'np_var'),
+    'nansum': ('nansum', 'nansum'), 'nanmax': ('nanmax', 'nanmax'), 'nanmin': ('nanmin', 'nanmin'),
+    'nanstd': ('nanstd', 'nanstd'), 'nanvar': ('nanvar', 'nanvar'),
+}
+PLAIN_STRICT = sorted(k for k in PLAIN_OPS if k.startswith('np_'))      # the reducers named by numpy's plain names
+PLAIN_METHOD = ['np_mean', 'np_sum', 'np_max', 'np_min', 'np_std', 'np_amax', 'np_amin']   # delegate to a method of the argument
+# the pure operations the Coq oracle knows (exact rationals); std is a square root and var is compared on the Python side
+COQ_RED = {'mean': 'RMean', 'median': 'RMedian', 'npmedian': '(RStrict RMedian)', 'np_mean': '(RStrict RMean)',
+           'np_sum': '(RStrict RSum)', 'np_max': '(RStrict RMax)', 'np_min': '(RStrict RMin)', 'np_ptp': '(RStrict RPtp)',
+           'nansum': 'RSum', 'nanmax': 'RMax', 'nanmin': 'RMin'}
+U53 = 2.0 ** -53
 MUT_AXIS = sorted(k for k, v in MUT_OPS.items() if v[1])
 MUT_NOAXIS = sorted(k for k, v in MUT_OPS.items() if not v[1])
 
@@ -97,7 +116,15 @@ def op_pure(op):
     """the pure operation ('mean' | 'median' | 'npmedian') computed by the `operation` / `reduce_fnc` called `op`"""
     if op in MUT_OPS:
         return MUT_OPS[op][0]
+    if op in PLAIN_OPS:
+        return PLAIN_OPS[op][1]
     return 'median' if op == 'median' else 'mean'
+
+
+def plain_fn(op):
+    """the NumPy function of a PLAIN_OPS entry"""
+    import numpy as np
+    return getattr(np, PLAIN_OPS[op][0])
 
 
 # ---------------------------------------------------------------------- literals
@@ -182,7 +209,104 @@ def ref_npmedian(r):
     return None if any(isnan(x) for x in r) else ref_median(r)
 
 
-REDUCERS = {'mean': ref_mean, 'median': ref_median, 'npmedian': ref_npmedian}
+def fsqrt(v):
+    """square root of a non-negative Fraction as a Fraction, relative error below 2^-90"""
+    if v <= 0:
+        return Fraction(0)
+    n, d = v.numerator, v.denominator
+    return Fraction(math.isqrt((n * d) << 200), d << 100)
+
+
+def ref_var(r):
+    """population variance of the valid samples (np.nanvar)"""
+    v = fvalid(r)
+    if not v:
+        return None
+    m = sum(v) / len(v)
+    return sum((x - m) ** 2 for x in v) / len(v)
+
+
+def strict(f):
+    """the plain NumPy reducer: NaN as soon as the row holds a NaN"""
+    return lambda r: None if any(isnan(x) for x in r) else f(r)
+
+
+def _nanstd(r):
+    v = ref_var(r)
+    return None if v is None else fsqrt(v)
+
+
+def _nanmax(r):
+    v = fvalid(r)
+    return max(v) if v else None
+
+
+def _nanmin(r):
+    v = fvalid(r)
+    return min(v) if v else None
+
+
+def _ptp(r):
+    v = fvalid(r)
+    return max(v) - min(v) if v else None
+
+
+REDUCERS = {'mean': ref_mean, 'median': ref_median, 'npmedian': ref_npmedian,
+            'np_mean': strict(ref_mean), 'np_sum': strict(lambda r: sum(fvalid(r), Fraction(0))),
+            'np_max': strict(_nanmax), 'np_min': strict(_nanmin), 'np_ptp': strict(_ptp), 'np_var': strict(ref_var),
+            'np_std': strict(_nanstd), 'nansum': lambda r: sum(fvalid(r), Fraction(0)), 'nanmax': _nanmax,
+            'nanmin': _nanmin, 'nanvar': ref_var, 'nanstd': _nanstd}
+
+
+def _gamma(k):
+    return k * U53 / (1 - k * U53)
+
+
+def red_err(pure, r):
+    """an a-priori bound for the absolute rounding error of the binary64 computation of reducer `pure` on row r (any
+    summation order; two-pass variance: mean, then the mean of the squared deviations): what a tolerance must grant on
+    rows whose values are large relative to their spread.  M = max|x|, N = number of samples, g_k = k*u/(1-k*u):
+    sum, mean: g_N * N * M resp. g_N * M; max, min, ptp, median: 2u * M; var: g_(N+4) * var + (g_N * M)^2 (the error of
+    the mean enters squared); std: g_(N+6) * std + g_N * M."""
+    v = fvalid(r)
+    if not v:
+        return 0.0
+    n = len(r)
+    big = float(max(abs(x) for x in v))
+    gn = _gamma(n + 2)
+    if pure in ('np_sum', 'nansum'):
+        return 2 * gn * n * big
+    if pure in ('np_var', 'nanvar'):
+        return 2 * (_gamma(n + 6) * float(ref_var(r)) + (gn * big) ** 2)
+    if pure in ('np_std', 'nanstd'):
+        return 2 * (_gamma(n + 8) * float(fsqrt(ref_var(r))) + gn * big)
+    return 2 * gn * big
+
+
+def z_tolerance(r):
+    """A-priori bounds for the two-pass z transform (a - nanmean(a)) / nanstd(a) of row r in binary64 (the analysis of
+    harness/c15.py z_tolerance, for the POPULATION standard deviation): with M = max|x|, s = exact standard deviation,
+    kappa = M/s (how large the values are relative to their spread), N = number of samples, g_k = k*u/(1-k*u):
+    the computed mean is within g_N*M of the mean for any summation order; the computed variance is
+    (s^2 + dm^2)(1+T), |T| <= g_(N+6), so H = (g_N*kappa)^2 bounds the relative excess of the variance -- SECOND order
+    in u*kappa, where a single-pass formula E[a^2] - E[a]^2 loses u*kappa^2; each score carries two more roundings.
+      |mean(z)|    <= (g_N*kappa + g_2*(1+H/2)) * (1+g_(N+6))
+      |std(z) - 1| <= g_(N+6) + (H + g_(N+6) + H*g_(N+6))/2 + g_2*(1+H/2)*(1+g_(N+6))
+      |z_i - ref_i| <= 2 * (bound_mean + |ref_i| * bound_std)
+    plus 8u for the harness' own fsum-based measurement; never below 1e-9 (the tolerance used before).
+    -> (kappa, tol_mean, tol_std)"""
+    v = fvalid(r)
+    m = sum(v) / len(v)
+    var = sum((x - m) ** 2 for x in v) / len(v)
+    kappa = float(max(abs(x) for x in v)) / math.sqrt(var)
+    n = len(r)
+    g = _gamma(n + 6)
+    gk = _gamma(n) * kappa
+    h = gk * gk
+    slack = 1 + 2.0 ** -40
+    b_mean = ((gk + _gamma(2) * (1 + h / 2)) * (1 + g) + 8 * U53) * slack
+    b_std = (g + (h + g + h * g) / 2 + _gamma(2) * (1 + h / 2) * (1 + g) + 8 * U53) * slack
+    return kappa, max(1e-9, b_mean), max(1e-9, b_std)
 
 
 def ref_downsample(r, by):
@@ -258,7 +382,8 @@ def ref_z(r):
     return out, sd, exact
 
 
-def close(a, b):
+def close(a, b, extra=0.0):
+    """relative tolerance 1e-9 (absolute below 1), plus `extra`: an a-priori rounding bound of the computation"""
     if a is None or b is None:
         return isnan(a) and isnan(b)
     if isnan(a) or isnan(b):
@@ -266,7 +391,7 @@ def close(a, b):
     a, b = float(a), float(b)
     if math.isinf(a) or math.isinf(b):
         return a == b
-    return abs(a - b) <= 1e-9 * max(1.0, abs(a), abs(b))
+    return abs(a - b) <= 1e-9 * max(1.0, abs(a), abs(b)) + extra
 
 
 def same(a, b):
@@ -541,11 +666,15 @@ class Run(object):
                 return srs.reduce(s, operation=lambda a: float(np.nanmean(a)))
             if op in MUT_OPS:
                 return srs.reduce(s, operation=make_op(op))
+            if op in PLAIN_OPS:
+                return srs.reduce(s, operation=plain_fn(op))
             return srs.reduce(s, operation=np.nanmean if op == 'mean' else np.nanmedian)
         if fn == 'baseline':
             kw = {}
             if p.get('rop'):
                 kw['reduce_fnc'] = make_op(p['rop'])
+            elif p.get('red') in PLAIN_OPS:
+                kw['reduce_fnc'] = plain_fn(p['red'])
             elif p.get('red') == 'mean':
                 kw['reduce_fnc'] = np.nanmean
             if p.get('method') is not None:
@@ -796,7 +925,21 @@ class C18:
             'such reduce calls on its own host table: the result is that of the pure operation (nanmean / nanmedian / '
             'np.median), every column of the host (signal, baseline, other columns) reads bit for bit as before the call, and '
             'np.asarray(col) / np.array(col) of every series column taken before the call are unchanged after it (not live '
-            'views of the storage the call works on); checked for every case of every family.  non-trivial = the output differs from the input column; distinct by (function, parameters, rows, '
+            'views of the storage the call works on); checked for every case of every family.  Plain NumPy reducers as '
+            'operation / reduce_fnc: np.mean, sum, max, min, std, amax, amin (NumPy calls a method of that name on a non-array '
+            'argument when it has one -- a SeriesColumn has properties of these names), np.median, ptp, var and the nan-aware '
+            'nansum, nanmax, nanmin, nanstd, nanvar, on tables whose number of rows EQUALS the depth of the reduced column '
+            '(baseline: the width of the window), differs from it, and where a selection / index list / a main host that is '
+            'itself a selection makes the two equal: per row the value of the reducer on that row (NaN as soon as the row '
+            'holds a NaN for the plain ones), exactly inside Coq for sum / max / min / ptp / mean / median on exactly '
+            'representable inputs, else against the rational reference with 1e-9 plus the a-priori rounding bound of the '
+            'reducer.  Rows riding on a large offset (|mean| / spread from 1e3 to 1e12, one row in six without offset, '
+            'non-integer samples, whole-number offsets, every NaN pattern) for z, reduce, baseline (baseline column on the '
+            'same or another offset), downsample, interpolate: z is judged per row -- mean 0, standard deviation 1, each '
+            'score against the exact rational reference -- with the tolerance max(1e-9, a-priori bound of the two-pass '
+            'formula for the conditioning max|x|/std of that row) (second order in u*max|x|/std; a single-pass E[a^2]-E[a]^2 '
+            'loses u*(max|x|/std)^2 and is far outside), the others with 1e-9 relative to the magnitude of the operands.  '
+            'non-trivial = the output differs from the input column; distinct by (function, parameters, rows, '
             'host, prelude, source configuration)')
     trusted_base = [
         'Coq 8.16.1 kernel (coqc; vm_compute for evaluating cases; no native_compute)',
@@ -820,6 +963,11 @@ class C18:
         'tolerance 1e-9)',
         'history independence is checked from the state of a fresh interpreter that has imported datamatrix, numpy and '
         'scipy.signal; state kept outside the process (files) is not reset between cases',
+        'rows with a large offset: the tolerance granted to z (and to var / std / sum reducers and to a baseline value) is '
+        'the rigorous a-priori rounding bound of the documented two-pass computation in binary64 for that row (u = 2^-53, '
+        'g_k = k*u/(1-k*u), any summation order), never below the 1e-9 used for well-conditioned rows; offsets beyond '
+        'max|x|/std ~ 1e13 (where a double mean cannot resolve the spread) are not generated',
+        'np.max / np.min of an EMPTY baseline window (ValueError in NumPy itself) is not generated for the plain reducers',
         'z: rows with zero variance or no valid sample are outside the formula (mean 0 / sd 1 is unsatisfiable); the '
         'standard deviation enters the Coq oracle as a rational witness checked by sd*sd == variance',
         'host-table reordering / selection itself (dm[positions], ops.sort, dm.k == set) is the subject of C01/C02/C10; here the '
@@ -941,6 +1089,29 @@ class C18:
             'rop' if fn == 'baseline' else 'fnc')
         if mop in MUT_OPS:
             tags += ['mutating-operation', 'operation:%s:%s' % (fn, mop)]
+        if fn == 'baseline' and (inp.get('params') or {}).get('red') in PLAIN_OPS:
+            mop = inp['params']['red']
+        if fn in ('reduce', 'baseline'):
+            # the depth of the column that is reduced (baseline: of the window) against the number of rows
+            w = inp['depth']
+            if fn == 'baseline' and inp.get('more') and inp['more'][0]:
+                q = inp.get('params') or {}
+                b0 = inp['more'][0][0]
+                w = len(pyslice(b0, q.get('bl_start', -100), q.get('bl_end') if q.get('bl_end') is not None else len(b0)))
+            tags.append('rows%sreduced-depth' % ('==' if len(inp['rows']) == w else '!='))
+            if o1 is not None and len(o1['ks']) == w:
+                tags.append('derived-rows==reduced-depth')
+            if mop in PLAIN_OPS:
+                tags += ['plain-reducer', 'operation:%s:%s' % (fn, mop)] + [
+                    'plain-reducer:%s' % t for t in tags if 'reduced-depth' in t]
+        if inp.get('offset'):
+            tags += ['large-offset', 'large-offset:' + fn]
+            for r in inp['rows']:
+                try:
+                    if ref_z(r)[0] is not None and any(x is not None for x in r):
+                        tags.append('max|x|/std~1e%d' % int(math.floor(math.log10(z_tolerance(r)[0]) + 0.5)))
+                except (ValueError, ZeroDivisionError, OverflowError):
+                    pass
         for name, cfg in sorted((inp.get('src') or {}).items()):
             tags += ['src:' + cfg.get('hist', 'plain'), 'src-defaultnan:%s' % cfg.get('dn', True),
                      'src:%s:%s%s' % (fn, cfg.get('hist', 'plain'), '' if cfg.get('dn', True) else ':defaultnan=False')]
@@ -1025,17 +1196,17 @@ class C18:
             return 'o_interpolate %s %s' % (S, obs), 'm_interpolate %s %s' % (S, obs), 'exact'
         if fn == 'reduce':
             pure = op_pure(p.get('op', 'mean'))
-            red = 'RMedian' if pure == 'median' else 'RMean'
-            if not exact or pure not in ('mean', 'median'):
+            if not exact or pure not in COQ_RED:
                 return None, None, 'tol'
+            red = COQ_RED[pure]
             ob = 'None' if o['rows'] is None else '(Some %s)' % rowlit([r[0] for r in o['rows']])
             return 'o_reduce %s %s %s' % (red, S, ob), 'm_reduce %s %s %s' % (red, S, ob), 'exact'
         if fn == 'baseline':
             bl = [inp['more'][0][k] for k in ks]
             lo, hi = p.get('bl_start', -100), p.get('bl_end')
             div = p.get('method') == 'divisive'
-            red = op_pure(p['rop']) if p.get('rop') else p.get('red', 'median')
-            ok = exact and red in ('mean', 'median')
+            red = op_pure(p['rop']) if p.get('rop') else op_pure(p.get('red', 'median'))
+            ok = exact and red in COQ_RED
             for r, b in zip(rows, bl):
                 ref, bv = ref_baseline(r, b, lo, hi, red, div)
                 if bv is not None and (not fexact(bv) or (div and bv == 0)):
@@ -1044,7 +1215,7 @@ class C18:
                     ok = False
             if not ok:
                 return None, None, 'tol'
-            a = '%s %s %s %s %s %s %s' % (L.boolean(div), 'RMean' if red == 'mean' else 'RMedian', L.z(lo), zopt(hi), S,
+            a = '%s %s %s %s %s %s %s' % (L.boolean(div), COQ_RED[red], L.z(lo), zopt(hi), S,
                                           rowslit(bl), obs)
             dbl = len(bl[0]) if bl else 0
             return 'o_baseline ' + a, 'm_baseline %s %s %s' % (L.nat(d), L.nat(dbl), a), 'exact'
@@ -1068,44 +1239,69 @@ class C18:
             return fails
         ks = o['ks']
 
-        def cmp_rows(ref, what):
+        def cmp_rows(ref, what, extra=None):
+            """extra[i]: what row i is granted on top of the relative tolerance 1e-9 (a number, or one per sample)"""
             for i, (a, b) in enumerate(zip(ref, out)):
                 if a is None:
                     continue
-                if len(a) != len(b) or not all(close(x, y) for x, y in zip(a, b)):
-                    fails.append('%s row %d: observed %r, formula gives %r' % (
-                        what, i, b, [None if x is None else float(x) for x in a]))
+                ex = extra[i] if extra is not None else 0.0
+                exs = ex if isinstance(ex, list) else [ex] * len(a)
+                if len(a) != len(b) or not all(close(x, y, e) for x, y, e in zip(a, b, exs)):
+                    fails.append('%s row %d: observed %r, formula gives %r%s' % (
+                        what, i, b, [None if x is None else float(x) for x in a],
+                        '' if not any(exs) else ' (granted for rounding: %.3g)' % max(exs)))
                     break
+        # rows riding on a large offset / reducers beyond nanmean, nanmedian: the rounding bound of the computation is
+        # granted on top of the relative tolerance
+        conditioned = bool(inp.get('offset'))
         if fn == 'downsample' and p['by'] > 0:
             cmp_rows([ref_downsample(r, p['by']) for r in rows], 'downsample')
         elif fn == 'interpolate':
             cmp_rows([ref_interpolate(r) for r in rows], 'interpolate')
         elif fn == 'reduce':
-            f = REDUCERS[op_pure(p.get('op', 'mean'))]
-            cmp_rows([[f(r)] for r in rows], 'reduce')
+            pure = op_pure(p.get('op', 'mean'))
+            f = REDUCERS[pure]
+            grant = conditioned or pure not in ('mean', 'median', 'npmedian')
+            cmp_rows([[f(r)] for r in rows], 'reduce', [red_err(pure, r) if grant else 0.0 for r in rows])
         elif fn == 'baseline':
             bl = [inp['more'][0][k] for k in ks]
-            refs = []
+            refs, extra = [], []
+            red = op_pure(p['rop']) if p.get('rop') else op_pure(p.get('red', 'median'))
+            grant = conditioned or red not in ('mean', 'median', 'npmedian')
+            div = p.get('method') == 'divisive'
             for r, b in zip(rows, bl):
-                ref, bv = ref_baseline(r, b, p.get('bl_start', -100), p.get('bl_end'),
-                                       op_pure(p['rop']) if p.get('rop') else p.get('red', 'median'),
-                                       p.get('method') == 'divisive')
-                refs.append(None if (bv == 0 and p.get('method') == 'divisive') else ref)
-            cmp_rows(refs, 'baseline')
+                lo, hi = p.get('bl_start', -100), p.get('bl_end')
+                ref, bv = ref_baseline(r, b, lo, hi, red, div)
+                eb = red_err(red, pyslice(b, lo, hi if hi is not None else len(b))) if grant else 0.0
+                if div and bv is not None and abs(bv) <= 4 * eb:
+                    ref = None          # the baseline value is 0 or not resolved by a double computation
+                elif div and bv is not None and eb:
+                    extra.append([0.0 if x is None else 2 * abs(float(x)) * eb / abs(float(bv)) for x in ref])
+                else:
+                    extra.append(eb)
+                if ref is None:
+                    extra.append(0.0)
+                refs.append(ref)
+            cmp_rows(refs, 'baseline', extra)
         elif fn == 'z':
-            refs = []
+            refs, extra = [], []
             for r, orow in zip(rows, out):
                 ref, _sd, _ex = ref_z(r)
                 refs.append(ref)
-                if ref is None:
+                if ref is None or all(x is None for x in ref):
+                    extra.append(0.0)
                     continue
+                kappa, tol_mean, tol_std = z_tolerance(r)
+                extra.append(0.0 if max(tol_mean, tol_std) <= 1e-9 else      # well-conditioned rows: as before
+                             [0.0 if x is None else 2 * (tol_mean + abs(x) * tol_std) for x in ref])
                 v = [x for x in orow if not isnan(x)]
                 if v:
                     m = math.fsum(v) / len(v)
                     sd = math.sqrt(math.fsum((x - m) ** 2 for x in v) / len(v))
-                    if abs(m) > 1e-9 or abs(sd - 1) > 1e-9:
-                        fails.append('z: row %r has mean %r and standard deviation %r' % (orow, m, sd))
-            cmp_rows(refs, 'z')
+                    if not (abs(m) <= tol_mean and abs(sd - 1) <= tol_std):
+                        fails.append('z: row %r has mean %r and standard deviation %r (tolerances %.3g / %.3g for '
+                                     'max|x|/std = %.3g)' % (orow, m, sd, tol_mean, tol_std, kappa))
+            cmp_rows(refs, 'z', extra)
         elif fn in FILTERS:
             ref = ref_butter(fn, p, rows)
             if ref is not None:
@@ -1417,6 +1613,94 @@ class C18:
         inp['prelude'] = pre
         return inp
 
+    def gen_plain_reduce(self, rng, fn, nmax, dmax, i):
+        """reduce(operation=) / baseline(reduce_fnc=) with the plain NumPy reducers (np.mean, sum, max, min, std, amax,
+        amin: they call a method of the same name on their argument when it has one; np.median, ptp, var; the nan-aware
+        nansum, nanmax, nanmin, nanstd, nanvar) on tables whose number of rows EQUALS the depth of the reduced column
+        (baseline: the width of the window), on tables where it differs, and on tables where a selection / an index
+        list makes the two equal (the main host has more rows than the depth, the derived host exactly as many)"""
+        shape = ('eq', 'sel-eq', 'any', 'sel-eq', 'eq')[i % 5]
+        w = rng.randint(1, min(dmax, nmax + 1))          # depth of the column that is reduced
+        if shape == 'eq':
+            n = w
+        elif shape == 'sel-eq':
+            n = w + rng.randint(1, 3)
+        else:
+            n = rng.randint(1, nmax)
+        tol = rng.random() < 0.4
+        d = w if fn == 'reduce' else rng.randint(1, dmax)
+        inp = self.gen_case(rng, fn, nmax, dmax, tol=tol, n=n, d=d)
+        scale = LCM if not tol else rng.choice([0.1, 1.7, 3.3e-3, 12345.678])
+        kinds = ['none', 'none', 'none', 'none', 'lead', 'trail', 'inner', 'all', 'random']
+        inp['rows'] = [self.gen_row(rng, d, scale, kind=rng.choice(kinds)) for _ in range(n)]
+        p = inp['params']
+        op = rng.choice(PLAIN_METHOD + PLAIN_STRICT + PLAIN_STRICT + sorted(PLAIN_OPS))
+        if fn == 'reduce':
+            p['op'] = op
+        else:
+            p['red'] = op
+            d2 = w + rng.randint(0, 2)
+            a = rng.randint(0, d2 - w)
+            bl = []
+            for _ in range(n):
+                r = self.gen_row(rng, d2, 1 if not tol else scale, kind=rng.choice(kinds))
+                if not tol:
+                    sc = rng.choice([1, 2, 4])
+                    r = [None if v is None else float(rng.choice([1, 2, 4, 8, -1, -2, -4]) * sc) for v in r]
+                bl.append(r)
+            inp['more'] = [bl]
+            p['bl_start'] = a
+            p['bl_end'] = None if (a + w == d2 and rng.random() < 0.5) else a + w
+        inp.pop('host', None)
+        inp.pop('sortkey', None)
+        if shape == 'sel-eq':
+            if rng.random() < 0.5:
+                inp['host'] = {'kind': 'select', 'ps': sorted(rng.sample(range(n), w))}
+            else:
+                inp['host'] = {'kind': 'index', 'ps': rng.sample(range(n), w)}
+        elif n > 1 or rng.random() < 0.5:
+            inp['host'], key = self.gen_host(rng, n)
+            if key is not None:
+                inp['sortkey'] = key
+        if rng.random() < 0.25:
+            self.add_source(rng, inp)
+            if inp.get('table') is None and rng.random() < 0.5:     # the main host itself is a selection of a longer table
+                inp['table'] = {'kind': rng.choice(['select', 'index', 'truncate']), 'n0': 1, 'extra': rng.randint(1, 3),
+                                'seed': rng.randint(0, 999), 'cols': rng.choice(['before', 'after'])}
+        return inp
+
+    def offset_row(self, rng, d, base=None):
+        """a row that rides on a large offset: |mean| / spread between 1e3 and 1e12 (one row in six: no offset),
+        non-integer samples, any NaN pattern -> (row, offset)"""
+        spread = rng.choice([1.0, 1.0, 0.01, 100.0, 7.3])
+        if base is None:
+            base = 0.0 if rng.random() < 0.16 else rng.choice([1, 1, -1]) * spread * 10 ** rng.uniform(3, 12) * 1.0
+            if rng.random() < 0.3 and base:
+                base = float(round(base))          # a whole number: time stamps, counters
+        pat = self.gen_row(rng, d, 1, kind=rng.choice(['none', 'none', 'none', 'lead', 'trail', 'inner', 'both', 'random']))
+        return [None if v is None else base + spread * rng.uniform(-5, 5) for v in pat], base
+
+    def gen_offset(self, rng, fn, nmax, dmax):
+        """the arithmetic functions (z, reduce, baseline, downsample, interpolate) on rows with a large offset and a
+        small spread: judged per row with a tolerance derived from the conditioning of the computation"""
+        n, d = rng.randint(1, nmax), rng.randint(min(3, dmax), dmax)
+        inp = self.gen_case(rng, fn, nmax, dmax, tol=True, n=n, d=d)
+        rows, bases = [], []
+        for _ in range(n):
+            r, b = self.offset_row(rng, d)
+            rows.append(r)
+            bases.append(b)
+        inp.update(rows=rows, exact=False, offset=True)
+        p = inp['params']
+        if fn == 'reduce':
+            p['op'] = rng.choice(['mean', 'median', 'default', 'noaxis'] + PLAIN_STRICT + ['nanstd', 'nanvar', 'nansum'])
+        elif fn == 'baseline':
+            d2 = len(inp['more'][0][0])
+            # the baseline column rides on the offset of the signal (the usual case), or on one of its own
+            inp['more'] = [[self.offset_row(rng, d2, base=(b if rng.random() < 0.7 else None))[0] for b in bases]]
+            p['red'] = rng.choice(['mean', 'median', 'median'] + PLAIN_STRICT + ['nanstd'])
+        return inp
+
     def gen_z_row(self, rng, d):
         """a row whose z-transform is exact in binary64: deviations with a rational, dyadic-friendly sd"""
         for _ in range(200):
@@ -1506,6 +1790,16 @@ class C18:
         for i in range(reps // 5):
             inps.append(self.gen_after_mutating(rng, ALL_FNS[i % len(ALL_FNS)] if not quick else rng.choice(ALL_FNS),
                                                 nmax, dmax))
+        # reduce / baseline with the plain NumPy reducers, on tables with rows == depth, rows != depth and selections
+        # that make the two equal
+        for i in range(reps // 2):
+            inps.append(self.gen_plain_reduce(rng, 'reduce', nmax, dmax, i))
+        for i in range(reps // 3):
+            inps.append(self.gen_plain_reduce(rng, 'baseline', nmax, dmax, i))
+        # rows riding on a large offset (|mean| / spread 1e3 .. 1e12)
+        for i in range(reps):
+            inps.append(self.gen_offset(rng, ('z', 'z', 'reduce', 'baseline', 'z', 'downsample', 'interpolate')[i % 7],
+                                        nmax, dmax))
         # fixed boundary cases named by the property text
         for inp in BOUNDARY:
             inps.append(json.loads(json.dumps(inp)))
@@ -1684,6 +1978,25 @@ BOUNDARY = [
      'host': {'kind': 'index', 'ps': [1, 0]}},
     {'fn': 'endlock', 'depth': 4, 'rows': [[3., 1., 2., N_], [N_, 9., 2., 5.]], 'host': {'kind': 'index', 'ps': [1, 0]},
      'prelude': [{'fn': 'reduce', 'params': {'op': 'sort_median'}, 'on': 'same'}]},
+    # plain NumPy reducers on a table with as many rows as the series is deep; on a 6 x 4 table of which 4 rows are selected
+    {'fn': 'reduce', 'depth': 3, 'rows': [[LCM * 1., LCM * 2., LCM * 6.], [LCM * 4., LCM * 4., LCM * 1.],
+                                          [LCM * 9., LCM * 2., LCM * 1.]],
+     'params': {'op': 'np_mean'}, 'exact': True, 'host': {'kind': 'index', 'ps': [2, 0, 1]}},
+    {'fn': 'reduce', 'depth': 4, 'rows': [[LCM * (10. * i + j * j) for j in range(4)] for i in range(6)],
+     'params': {'op': 'np_mean'}, 'exact': True, 'host': {'kind': 'select', 'ps': [0, 2, 3, 5]}},
+    {'fn': 'reduce', 'depth': 4, 'rows': [[LCM * (10. * i + j * j) for j in range(4)] for i in range(6)],
+     'params': {'op': 'np_max'}, 'exact': True, 'host': {'kind': 'index', 'ps': [5, 0, 2, 3]}},
+    {'fn': 'reduce', 'depth': 2, 'rows': [[1.5, 2.25], [4., N_]], 'params': {'op': 'np_std'}},
+    {'fn': 'baseline', 'depth': 3, 'rows': [[8., 4., 2.], [1., N_, 16.], [3., 5., 7.], [2., 2., 1.]],
+     'more': [[[4., 1., 2., 8.], [2., 8., 4., 1.], [1., 1., 2., 2.], [8., 4., 2., 1.]]],
+     'params': {'red': 'np_mean', 'method': 'subtractive', 'bl_start': 0, 'bl_end': 2}, 'exact': True,
+     'host': {'kind': 'select', 'ps': [1, 3]}},
+    # rows riding on a large offset: mean 0 and standard deviation 1 all the same
+    {'fn': 'z', 'depth': 6, 'offset': True, 'params': {},
+     'rows': [[0.3, -1.7, 4.1, 2.2, -3.9, 0.6], [1000.3, 998.3, 1004.1, 1002.2, 996.1, 1000.6],
+              [1e8 + 0.3, 1e8 - 1.7, 1e8 + 4.1, N_, 1e8 - 3.9, 1e8 + 0.6], [3e8 + 0.3, 3e8 - 1.7, 3e8 + 4.1, 3e8 + 2.2, N_, N_],
+              [-1.7e12 + 0.25, -1.7e12 + 1.5, -1.7e12 + 7.75, -1.7e12 + 3., -1.7e12, -1.7e12 + 4.5]],
+     'host': {'kind': 'index', 'ps': [4, 2, 0, 3, 1]}},
 ]
 for _b in BOUNDARY:
     _b.setdefault('params', {})
